@@ -40,7 +40,7 @@ type ATCase struct {
 }
 
 func (c *ATCase) cfgTok() string {
-	return fmt.Sprintf("v%do%d", b2i(c.Validate), b2i(c.OnlyCare))
+	return fmt.Sprintf("v%do%da%d", b2i(c.Validate), b2i(c.OnlyCare), b2i(c.Schema != nil && c.Schema.Auto))
 }
 
 func (c *ATCase) headerToks() []string {
